@@ -173,6 +173,37 @@ CHECKS = {
         "arrives for 1.5 s. io_uring sessions are covered by C20, not here.",
    technique="TLA+ spec (Linger.tla) + TLC exhaustive incl. as-is variants; TLC trace validation (Trace_Linger.tla) of recorded closes of real sockets with hook events",
    design_ref="DESIGN.md 5 (C15)"),
+ "C16": dict(
+   text="TLC checks Lifecycle.tla exhaustively incl. liveness under fairness of the actors only (one context; socket core, listener, "
+        "connecter, session in handshake / waiting for pipes / operational; event bus and mailboxes as separate delivery steps, late "
+        "subscribers; blocked application calls; WaitGroup::wait as arm / check / sleep): WgExact, AfterCloseErr, NoBlockedOnStopped, "
+        "NamesFree, TermMeansAllGone, Terminates, CloseCleans - and must find the violation under each of three switches describing the "
+        "pinned revision. WaitGroup::wait is run against the last done() at every scheduling point of the real code (controlled "
+        "scheduler). Real sockets: close()/term() injected into blocked recv / send (no peer, full pipe), connect retries, handshakes "
+        "that never complete (outbound, inbound), connections accepted at the moment of the close, streaming traffic with option / "
+        "monitor calls from other tasks, and before every operation of a scripted two-socket history; afterwards every operation on "
+        "every closed socket, the live-actor count, a re-bind of every name. The history is validated by TLC against "
+        "Trace_Lifecycle.tla (the application-visible part of Lifecycle.tla with time bounds).",
+   note="Bounded = LINGER + 3 s for close()/term() and calls in flight, 1 s for operations on a closed socket; names are re-bound "
+        "300-400 ms after the call returned. term()'s Ok is not trusted: its duration and the live-actor count are. Two sockets: safety "
+        "only (thorough tier); liveness with one socket.",
+   technique="TLA+ spec (Lifecycle.tla) + TLC exhaustive incl. liveness and as-is variants; controlled-scheduler exploration of WaitGroup::wait; TLC trace validation (Trace_Lifecycle.tla) of recorded API histories with injected close/term",
+   design_ref="DESIGN.md 5 (C16)"),
+ "C17": dict(
+   text="TLC checks Isolation.tla exhaustively incl. liveness (sockets owning inbound / outbound connections, faults of every kind on "
+        "any connection at any moment, clean-up and retry: OnlyUserStops, FaultLocal, ComesBack; must find the violation under the "
+        "switch describing the pinned revision) and Backoff.tla (both delay computations of rzmq transcribed; Starts, NeverBelow, "
+        "Geometric, Capped, Inherit for all option pairs and histories of 7 failures / successes). Every Backoff history is replayed "
+        "on the real ReconnectState. Real sockets: a hub (PULL / ROUTER on tcp, ipc, inproc; PUSH connecting out) with a healthy peer "
+        "streaming numbered messages while faults hit another connection (garbage in each phase, oversize frame, RST, half-close, "
+        "wrong socket type raw and by real sockets, wrong PLAIN credentials, bursts of aborted connects), then a late peer; outbound "
+        "connections against a listener that drops every connection, a dead port (also while other sockets of the context come and "
+        "go), a listener that goes away and comes back. The history sets Isolation's variables in Trace_Isolation.tla; TLC evaluates "
+        "OnlyUserStops on every state, FaultLocal / ComesBack per run and Backoff's clauses on every measured gap.",
+   note="Measured gaps: -15 ms / +450 ms (100 ms maintenance tick, connect and handshake time). RECONNECT_IVL_MAX < RECONNECT_IVL is "
+        "treated as not set. The connecter's loop is compared with its transcription through its ConnectRetried intervals (drift only).",
+   technique="TLA+ spec (Isolation.tla, Backoff.tla) + TLC exhaustive incl. liveness; TLC behaviours replayed on the real ReconnectState; TLC trace validation (Trace_Isolation.tla) of recorded fault-injection and reconnect runs",
+   design_ref="DESIGN.md 5 (C17)"),
 }
 
 NA_DEFAULT = "check not built yet (construction in progress; see DESIGN.md section 10)"
